@@ -103,6 +103,9 @@ func observeJSON(doc string) []string {
 		r := guard(func() string {
 			var d expr.Expression
 			if err := json.Unmarshal([]byte(doc), &d); err != nil {
+				// the exported decoding method called directly, as a caller holding raw bytes may: a value or an error, no panic
+				var d2 expr.Expression
+				_ = d2.UnmarshalJSON([]byte(doc))
 				return "ERR"
 			}
 			return "DECODED-INVALID-JSON"
@@ -176,6 +179,7 @@ func observeCustom(q, spec string) []string {
 		}
 	}
 	rm, ov := parseSpec(spec)
+	em := parseEmpty(spec)
 	trace := []string{}
 	fns := map[expr.Operator]driver.RenderFN{}
 	for op := expr.Operator(0); int(op) <= int(expr.List); op++ {
@@ -189,6 +193,9 @@ func observeCustom(q, spec string) []string {
 		}
 		fns[op] = func(l, r string) (string, error) {
 			trace = append(trace, fmt.Sprintf("%d:%s:%s", int(op), hx(l), hx(r)))
+			if em[int(op)] { // a function may return anything, the empty string included
+				return "", nil
+			}
 			return name + "<" + l + "|" + r + ">", nil
 		}
 	}
@@ -237,6 +244,21 @@ func driverIsolation() string {
 		}
 		return res
 	})
+}
+
+func parseEmpty(spec string) map[int]bool {
+	em := map[int]bool{}
+	for _, part := range strings.Split(spec, ";") {
+		kv := strings.SplitN(part, "=", 2)
+		if len(kv) == 2 && kv[0] == "em" && kv[1] != "" {
+			for _, n := range strings.Split(kv[1], ",") {
+				var k int
+				fmt.Sscan(n, &k)
+				em[k] = true
+			}
+		}
+	}
+	return em
 }
 
 func parseSpec(spec string) (rm, ov map[int]bool) {
